@@ -2,6 +2,7 @@ package main
 
 // sha256 of the go/printer text of the audited token constructors of lexer_participle.go
 // (audited at /repo b89a0b2; regenerate only after re-reading the changed function against c09LexAction and Model/Lexer.v)
+// encodeParseIndent re-audited at /repo 06b2b30 (adds a range error for indents above 1000000: an error path of the kind Model/Lexer.v does not model)
 var lexHelperDigests = map[string]string{
 	"simpleOp": "e1565fd45f5c4d01cf6a6f223344092e8af2a0ec9f5982e232d54e1f3e035f25",
 	"assignableOp": "5e856306b86fa93a0d293d58167e70546dd80f5aa3b7ef84d9b6757cc1d08e94",
@@ -24,7 +25,7 @@ var lexHelperDigests = map[string]string{
 	"numberValue": "38b9e17c209cdd2ae2974c25c477c99286d590eb1d14fa61e909e71d7b0f4480",
 	"parentWithLevel": "acfc660f30667598719be0ab20a3b021f86b1fd5c795040f7318424b9c07c938",
 	"parentWithDefaultLevel": "37a5cedc86796acfca9a07f7b8b3723d691a24f3824729cd2dce2ebb063e91bc",
-	"encodeParseIndent": "9d7e2c6c444494484fdbad5100e4bbcf6a0ab771889320918fd485925bd7fc82",
+	"encodeParseIndent": "e42a7deb986763a14b1e9be69366a491a27f405262add60f7c2b577766627b6b",
 	"encodeWithIndent": "a2635d96cbfbe3ab7889bc4f986acc7b8185c7af75cf196f3e0234f930c49ddd",
 	"decodeOp": "21bb8ddb9ccc015aba79aeec009854d6b20a4a0c99b77a81db91f3533f7f412b",
 	"loadOp": "00059b560dbedfc050eca6bdfa8375ca5416518933d6cef0edd7b7a71a029249",
